@@ -196,6 +196,8 @@ class Field:
                 ann.append("guard(%s, %s)" % (p[1], rust_str(p[2])))
             elif p[0] == "group_help":
                 ann.append("group_help(%s)" % rust_str(p[1]))
+            elif p[0] == "custom_usage":
+                ann.append("custom_usage(%s)" % rust_str(p[1]))
         out = ""
         if self.doc:
             for l in self.doc:
@@ -269,6 +271,8 @@ class Field:
                 e += ".guard(%s, %s)" % (p[1], rust_str(p[2]))
             elif p[0] == "group_help":
                 e += ".group_help(%s)" % rust_str(p[1])
+            elif p[0] == "custom_usage":
+                e += ".custom_usage(%s)" % rust_str(p[1])
         return e
 
 
@@ -370,6 +374,9 @@ def gen_named_field(rng, names, tag):
         f.post.append(("hide_usage",))
     elif rng.random() < 0.08:
         f.post.append(("group_help", "group %s" % tag))
+    elif rng.random() < 0.1:
+        # shows whether decorations sit outside the implicit optional/many: `CU` vs `[CU]...`
+        f.post.append(("custom_usage", "CU_%s" % tag))
     if rng.random() < 0.6:
         f.doc = ["help for %s" % tag]
         if rng.random() < 0.2:
